@@ -22,7 +22,7 @@ UNIT = dict(
         "FifoStore::len@EvictionStore": dict(),
         "LfuStore::new": dict(),
         "LfuStore::get@EvictionStore": dict(rules=[
-            ("sub", "R10-entry", r"\*self\.frequencies\.entry\(key\.clone\(\)\)\.or_insert\(0\) \+= 1;", "vx_bump(&mut self.frequencies, key.clone()); proof { assert(self.frequencies@.dom() =~= self.data@.dom()); }", 1),
+            ("sub", "R10-entry", r"\*self\.frequencies\.entry\(key\.clone\(\)\)\.or_insert\(0\) \+= 1;", "vx_bump(&mut self.frequencies, key.clone());\n proof { assert(self.frequencies@.dom() =~= self.data@.dom()); }   // #a_lookup_leaves_no_frequency_record_without_a_stored_entry [C10]\n", 1),
         ]),
         "LfuStore::insert@EvictionStore": dict(rules=[
             ("sub", "R10-entry", r"\*self\.frequencies\.entry\(key\.clone\(\)\)\.or_insert\(0\) \+= 1;", "vx_bump(&mut self.frequencies, key.clone());", 1),
